@@ -7,10 +7,12 @@ def run(tier, rep):
     thorough = tier == 'thorough'
     K, KE, KF = (10, 9, 8) if thorough else (8, 7, 6)
     with Scratch() as sc:
-        fs = lr.files(sc, lrK=K, lrEvalK=KE, lrFailK=KF)
+        LONG = [12, 40, 120] if thorough else [40, 80]
+        fs = lr.files(sc, lrK=K, lrEvalK=KE, lrFailK=KF, lrLongNs=LONG)
         for entry, label, bound in (
                 ('harnessLRParse', 'token/production callbacks vs reverse rightmost derivation of the reference tree, every sequence of <= %d tokens', K),
                 ('harnessLREvaluate', 'ParseAndEvaluate: body values left to right, head value and position, every sentence of <= %d tokens', KE),
+                ('harnessLREvaluateLong', 'the same on long sentences of nine shapes (sizes ' + str(LONG) + '), one token kind arbitrary%.0d', 0),
                 ('harnessLRFailure', 'failure injection at every callback / lexer call, every sentence of <= %d tokens', KF)):
             res = run_gosym(lr.cfg(fs, entry, tier), sc, entry, timeout=4 * 3600)
             merge_gosym(rep, res, label % bound)
